@@ -352,3 +352,11 @@ let () =
                else flat_group_size d (z_of_string n) (z_of_string bl)) in
       opt string_of_z r
     | _ -> failwith "fgs")
+
+(* ---- C19: enum visit: enumv <value> <validValue constants...> -> index | unknown ---- *)
+let () =
+  register "enumv" (function v :: vals ->
+      (match enum_visit (List.map z_of_string vals) (z_of_string v) with
+       | Some i -> string_of_int (int_of_nat i)
+       | None -> "unknown")
+    | _ -> failwith "enumv")
